@@ -1,0 +1,17 @@
+//go:build verif
+
+// Contracts for package scorer (read by /verif/gocv; comment-only effect with the verif tag off).
+// Scoring arithmetic is not what the searcher properties are about: the contracts are trusted and
+// only say which match object is returned and which of its fields are written.
+
+package scorer
+
+// The conjunction scorer reuses constituents[0] as the result: it overwrites its score, explanation
+// and term locations; the id and everything else stay.
+//@ func ConjunctionQueryScorer.Score
+//@   props C08
+//@   mode int
+//@   trusted scoring arithmetic and location merging are not under contract
+//@   requires s != nil && len(constituents) > 0 && forall(k, 0, len(constituents), constituents[k] != nil)
+//@   modifies constituents[0].Score, constituents[0].Expl, constituents[0].FieldTermLocations
+//@   ensures result == constituents[0]
